@@ -147,8 +147,17 @@ func c12Cases(tier string) []c12Case {
 				out = append(out, c12Case{Decls: s, Mask: m, CleanTask: ct})
 			}
 		}
-		// the same with a symlinked spokfile, for the full tree
+		// the same with a symlinked spokfile, and invoked from a sub-directory of the project, for the full tree
 		out = append(out, c12Case{Decls: s, Mask: full, SpokLink: true})
+		joinRelative := false
+		for _, id := range s {
+			if d := c12DeclByID(id); strings.Contains(d.VarRHS, "join(") {
+				joinRelative = true // join() is defined relative to the working directory: not comparable from elsewhere
+			}
+		}
+		if !joinRelative {
+			out = append(out, c12Case{Decls: s, Mask: full, Nested: true})
+		}
 	}
 	return out
 }
@@ -184,8 +193,15 @@ func c12Run(root string, c c12Case) (obs []c12Obs, outcome string) {
 		}
 	}
 	vlog := filepath.Join(ctl, "vlog")
-	before := bin.Snap(root)
-	o := bin.Run(proj, home, []string{"VLOG=" + vlog, "VCTL=" + ctl}, "--clean")
+	var before bin.Snapshot
+	cwd := proj
+	if c.Nested {
+		cwd = t.Mkdir(projRel + "/keepdir/inner")
+		t.File(projRel+"/keepdir/inner/o1", "same name as an output, elsewhere\n")
+		t.File(projRel+"/keepdir/inner/a.gen", "same name as a glob match, elsewhere\n")
+	}
+	before = bin.Snap(root)
+	o := bin.Run(cwd, home, []string{"VLOG=" + vlog, "VCTL=" + ctl}, "--clean")
 	after := bin.Snap(root)
 	outcome = fmt.Sprintf("exit%d", o.Exit)
 	if o.Died() {
